@@ -87,6 +87,8 @@ class Engine:
         self.max_paths = max_paths
         self.deadline = deadline
         self.numeric_first = 0
+        self.fast_real = False
+        self._varcache = {}
         self.stats = dict(paths=0, aborted=0, forks=0, queries=0, sat=0, unsat=0,
                           unknown=0, solver_s=0.0, obligations=0, discharged=0,
                           nontrivial_paths=0, violations=0)
@@ -124,7 +126,7 @@ class Engine:
     # --------------------------------------------------------------- symbols
     def _register(self, name, const):
         if name in self.symbols:
-            raise RuntimeError("symbol name used twice: %s" % name)
+            self._latch(Inconclusive("harness error: symbol name used twice: %s" % name))
         self.symbols[name] = const
         return const
 
@@ -303,6 +305,11 @@ class Engine:
             self.stats["discharged"] += 1
             st[1] += 1
             return
+        if self.fast_real and self._prove_sliced(c):
+            self.stats["discharged"] += 1
+            self.stats["sliced"] = self.stats.get("sliced", 0) + 1
+            st[1] += 1
+            return
         if self.numeric_first:
             w = self._numeric_witness(c, tries=self.numeric_first)
             if w is not None:
@@ -456,6 +463,67 @@ class Engine:
                 self.reach += 1
                 return True
             self._latch(Inconclusive("solver unknown in reachability twin"))
+        return False
+
+    def _vars_of(self, e):
+        k = e.get_id()
+        r = self._varcache.get(k)
+        if r is not None:
+            return r
+        out = set()
+        seen = set()
+        stack = [e]
+        while stack:
+            x = stack.pop()
+            i = x.get_id()
+            if i in seen:
+                continue
+            seen.add(i)
+            if z3.is_const(x) and x.decl().kind() == z3.Z3_OP_UNINTERPRETED:
+                out.add(x.decl().name())
+            else:
+                stack.extend(x.children())
+        self._varcache[k] = (out, e)  # keep e alive so that ids are not reused
+        return self._varcache[k]
+
+    def _prove_sliced(self, goal):
+        """sound shortcut for real-arithmetic obligations: prove the goal from no hypotheses, then from the
+        hypotheses in its cone of influence (a subset of the path condition: unsat there is unsat everywhere),
+        each time after purification with nlsat.  Anything but unsat falls through to the full query."""
+        neg = z3.Not(goal)
+        for rounds, tmo in ((0, 3000), (1, 6000), (2, 12000)):
+            hyps = []
+            if rounds:
+                syms = set(self._vars_of(goal)[0])
+                chosen = set()
+                A = list(self.solver.assertions())
+                for _ in range(rounds):
+                    new = set()
+                    for idx, a in enumerate(A):
+                        if idx in chosen:
+                            continue
+                        va = self._vars_of(a)[0]
+                        if va & syms and len(va) <= 12:
+                            chosen.add(idx)
+                            new |= va
+                    syms |= new
+                hyps = [A[i] for i in sorted(chosen)]
+                if len(hyps) > 400:
+                    continue
+            t = time.time()
+            try:
+                fs = purify(hyps + [neg])
+                sv = z3.Then("simplify", "solve-eqs", "qfnra-nlsat").solver()
+                sv.set("timeout", tmo)
+                sv.add(*fs)
+                r = sv.check()
+            except z3.Z3Exception:
+                r = z3.unknown
+            self.stats["solver_s"] += time.time() - t
+            self.stats["queries"] += 1
+            self.stats[str(r)] += 1
+            if r == z3.unsat:
+                return True
         return False
 
     def _decide_nlsat(self, goal):
